@@ -75,6 +75,20 @@ class Prop(BaseProp):
             for k in cuts:
                 if 0 <= k < len(ser):
                     cases.append({"kind": "Parse", "inp": ser[:k].hex(), "pp": True})
+        # declared length disagreeing with the bytes the commands account for (all bytes present in the stream)
+        def varint(n):
+            return bytes([n]) if n < 0xfd else b"\xfd" + n.to_bytes(2, "little")
+        for cmds in [[rb(76)], [rb(255)], [rb(256)], [rb(300)], [81, rb(80)], [rb(2), rb(77)], [rb(20), 172], [rb(75)], [0, rb(1)]]:
+            try:
+                body = Script(to_py(cmds)).raw_serialize()
+            except Exception:
+                continue
+            for d in (-3, -2, -1, 1, 2, 3):
+                if len(body) + d >= 0:
+                    cases.append({"kind": "Parse", "inp": (varint(len(body) + d) + body).hex(), "pp": False})
+                    cases.append({"kind": "Parse", "inp": (varint(len(body) + d) + body + b"\x00\x00\x00").hex(), "pp": False})
+        for h in ["014c00", "014c01aa", "014d0000", "024d0000", "014d000000", "024d0100aa", "004c00", "0051", "024c0051", "034d000051"]:
+            cases.append({"kind": "Parse", "inp": h, "pp": False})
         for h in ["", "00", "01", "0101", "0504aa", "0201", "024c00", "024c01", "034c01", "034c01aa", "034d0100", "044d0100aa", "014c", "014d",
                   "024d01", "fd0000", "fd00", "fd", "fe000000", "fe00000000", "ff00", "fd010061", "fd0100", "03516a", "0151", "02", "0200", "020000",
                   "fd0300515151", "014f", "0100", "034b" + "00" * 2]:
